@@ -316,7 +316,7 @@ func (r *Run) Cases(n, workers int, fn func(idx int)) {
 							r.Violation("panic", i, fmt.Sprintf("panic: %v", p), map[string]any{"panic": fmt.Sprint(p), "stack": string(buf)})
 						}
 					}()
-					fn(i)
+					r.bounded(i, "case-does-not-terminate", r.caseLimit(), caseRSS, nil, func() { fn(i) })
 				}()
 			}
 		}()
@@ -397,6 +397,7 @@ func Avoid(tag string) bool {
 type boundedCall struct {
 	start   time.Time
 	limit   time.Duration
+	rss     uint64 // resident-memory limit that makes this call a suspect
 	idx     int
 	class   string
 	witness func() any
@@ -441,13 +442,15 @@ func (r *Run) boundedWatch() {
 				break
 			}
 		}
-		if culprit == nil && rss > runawayRSS {
+		if culprit == nil {
 			for _, c := range boundedCalls {
-				if culprit == nil || c.start.Before(culprit.start) {
+				if rss > c.rss && (culprit == nil || c.start.Before(culprit.start)) {
 					culprit = c
 				}
 			}
-			why = fmt.Sprintf("process memory reached %d GB while it was the longest-running guarded call", rss>>30)
+			if culprit != nil {
+				why = fmt.Sprintf("process memory reached %d GB while it was the longest-running guarded call", rss>>30)
+			}
 		}
 		boundedMu.Unlock()
 		if culprit == nil {
@@ -461,6 +464,9 @@ func (r *Run) boundedWatch() {
 		r.mu.Lock()
 		rule, floor := r.abortRule, r.abortFloor
 		r.mu.Unlock()
+		if rule == "" {
+			rule = "(run aborted before its rule text was recorded)"
+		}
 		r.Note("run aborted by the runaway guard: the remaining cases were not executed")
 		r.Finish(rule+" [aborted by the runaway guard]", floor)
 		os.Exit(0)
@@ -468,11 +474,28 @@ func (r *Run) boundedWatch() {
 }
 
 func (r *Run) Bounded(idx int, class string, limit time.Duration, witness func() any, fn func()) {
+	r.bounded(idx, class, limit, runawayRSS, witness, fn)
+}
+
+// Every case run by Cases is guarded as a whole with very generous limits (a quick-tier case takes
+// seconds to a few minutes): a case that is still running after caseLimit, or during which the
+// process grows past caseRSS, ends the run with a runaway violation for that case instead of an
+// out-of-memory kill or an outer timeout without verdict.
+const caseRSS = 32 << 30
+
+func (r *Run) caseLimit() time.Duration {
+	if r.Quick() {
+		return 30 * time.Minute
+	}
+	return 4 * time.Hour
+}
+
+func (r *Run) bounded(idx int, class string, limit time.Duration, rss uint64, witness func() any, fn func()) {
 	boundedOnce.Do(func() { go r.boundedWatch() })
 	boundedMu.Lock()
 	boundedSeq++
 	id := boundedSeq
-	boundedCalls[id] = &boundedCall{start: time.Now(), limit: limit, idx: idx, class: class, witness: witness}
+	boundedCalls[id] = &boundedCall{start: time.Now(), limit: limit, rss: rss, idx: idx, class: class, witness: witness}
 	boundedMu.Unlock()
 	defer func() {
 		boundedMu.Lock()
